@@ -123,7 +123,8 @@ def case_history(ctx, case):
     def code(p, salt):
         return p[0] + 10 * p[1] + 100 * p[2] + 1000 * salt
 
-    names = ['c1', 'c10', 'c2', 'food', 'food_max', 'rain', 'rainfall', 'slope', 'p', 'o', 's', 'po', 'x pos']   # overlapping names on purpose
+    names = ['c1', 'c10', 'c2', 'food', 'food_max', 'rain', 'rainfall', 'slope', 'p', 'o', 's', 'po', 'x pos',
+             'c[12]', 'c*', 'f??d', 'rain*', 'c$$', 'caf\u00e9', 'cafe\u0301', '\u00b5', '\u03bc']   # overlapping names on purpose; names that look like patterns; unnormalised unicode
     for step in range(rng.randint(5, 20)):
         x = rng.random()
         free = [n for n in names if n not in shadow]
